@@ -1764,6 +1764,16 @@ func init() {
 				r.key += " (written+read)"
 				r.verifyAll(e2, f, "written", stateKey)
 			}
+			// the same edit applied to an object that came out of ReadExchange (it may carry state the
+			// reader attached - cached header bytes, parsed forms - that a fresh object does not have):
+			// read the ORIGINAL file, then overwrite every exported field with the edited values
+			if e3, err := c01Read(b.file); err == nil {
+				ed := s.exchange()
+				e3.Version, e3.RequestURI, e3.RequestMethod, e3.RequestHeaders = ed.Version, ed.RequestURI, ed.RequestMethod, ed.RequestHeaders
+				e3.ResponseStatus, e3.ResponseHeaders, e3.SignatureHeaderValue, e3.Payload = ed.ResponseStatus, ed.ResponseHeaders, ed.SignatureHeaderValue, ed.Payload
+				r.key = fmt.Sprintf("C01/edit/%s/%s (read, then edited)", b.name, desc)
+				r.verifyAll(e3, f, "read-then-edited", stateKey)
+			}
 			c.Sample(map[string]string{"base": b.name, "edits": desc})
 		},
 	}
